@@ -397,6 +397,31 @@ def run_dep5(case, ctx, res):
                 if d and (own in (1, 2, 3) or dot in (2, 3, 4)):
                     res.nsig += 1
                 res.cell("dep5-cell")
+        # paragraph order: the last paragraph that matches a file counts - also when it is the catch-all and comes late
+        root2 = ctx.scratch / "c04-dep5-order"
+        for rel in ("x/a.txt", "y/b.txt", "z/deep/c.txt", "top.txt"):
+            (root2 / rel).parent.mkdir(parents=True, exist_ok=True)
+            (root2 / rel).write_text("no information of its own\n")
+        (root2 / ".reuse").mkdir()
+        head = "Format: https://www.debian.org/doc/packaging-manuals/copyright-format/1.0/\nUpstream-Name: x\nUpstream-Contact: y\nSource: https://example.com\n\n"
+        (root2 / ".reuse/dep5").write_text(head + "Files: x/*\nCopyright: 2011 Early X\nLicense: LicenseRef-x\n\nFiles: z/*\nCopyright: 2011 Early Z\nLicense: LicenseRef-z\n\n"
+                                           "Files: *\nCopyright: 2012 Late Star\nLicense: LicenseRef-star\n\nFiles: y/b.txt z/deep/*\nCopyright: 2013 Last\nLicense: LicenseRef-last\n")
+        want2 = {"x/a.txt": "LicenseRef-star", "top.txt": "LicenseRef-star", "y/b.txt": "LicenseRef-last", "z/deep/c.txt": "LicenseRef-last"}
+        try:
+            r = run_cli(["--no-multiprocessing", "--root", str(root2), "lint", "--json"], cwd=str(root2))
+            try:
+                data = json.loads(r.stdout)
+            except ValueError:
+                res.violation("lint-gives-no-report", f"lint --json exit {r.exit_code} without a report (dep5 paragraph order)", **r.brief())
+                data = {"files": []}
+            got2 = {f["path"]: sorted(x["value"] for x in f["spdx_expressions"]) for f in data["files"]}
+            for rel, lic in want2.items():
+                res.n += 1
+                if got2.get(rel) != [lic]:
+                    res.violation("dep5-last-matching-paragraph", f"{rel}: licences {got2.get(rel)}, the last matching paragraph says {lic}")
+            res.cell("dep5-paragraph-order")
+        finally:
+            shutil.rmtree(root2, ignore_errors=True)
     finally:
         shutil.rmtree(root, ignore_errors=True)
     return res.out()
